@@ -1982,6 +1982,10 @@ var witnesses = []witness{
 			"package.json":               `{"exports":{".":"./own.js"}}`,
 			"own.js":                     "module.exports='own'\n",
 			"node_modules/@foo/index.js": "module.exports='foo'\n"}},
+	{scenario: "import-hash-specifier-without-imports-map", what: "esm-hash-without-imports", spec: "#x", kinds: []string{"import"},
+		raw: map[string]string{
+			"package.json":             `{"name":"app"}`,
+			"node_modules/#x/index.js": "export default 1\n"}},
 	{scenario: "import-file-shadows-package-directory", what: "esm-file-shadows-package", spec: "dep", kinds: []string{"import"},
 		raw: map[string]string{
 			"node_modules/dep/package.json": `{"name":"dep","main":"./main.js"}`,
